@@ -329,6 +329,7 @@ type c11Outcome struct {
 	attempts, successes, failures, pendingSeen int
 	byFeature                                   map[string]int
 	orderPairs, orderUndecided                  int
+	orderExtreme, orderOverflow                 int
 	beEvPrioInversions                          int
 	met, unmet, stoppedEarly                    int
 	stoppedEarlyBy                              map[string]int
@@ -415,7 +416,24 @@ func c11Check(views map[types.UID]*c11View, tasks map[string]*c11TaskView, thr *
 			out.orderPairs++
 			if und {
 				out.orderUndecided++
-			} else if less {
+			}
+			if !und {
+				ka, kb := c11OrderKeys(feature, p), c11OrderKeys(feature, prev)
+				ext, ovf := false, false
+				for i := range ka {
+					ext = ext || c11IsExtreme(ka[i]) || c11IsExtreme(kb[i])
+					if d := ka[i] - kb[i]; d > c11MaxI32 || d < c11MinI32 {
+						ovf = true
+					}
+				}
+				if ext {
+					out.orderExtreme++
+				}
+				if ovf {
+					out.orderOverflow++
+				}
+			}
+			if !und && less {
 				add("C11/order/victims-out-of-published-order/"+feature, "%s attempted %s after %s although it sorts strictly before it in the published order", feature, p, prev)
 			}
 			if feature == "BECPUEvict" && p.prio == prev.prio && p.evPrio < prev.evPrio {
@@ -499,7 +517,33 @@ func c11Ptr(p *int32) string {
 
 var c11Features = []featuregate.Feature{features.BECPUEvict, features.CPUAllocatableEvict, features.CPUEvict}
 
-func c11GenPod(r *kit.Rand, i int) (*corev1.Pod, *float64) {
+// Legal extremes of the three ordering keys. The eviction-priority annotation and the koordinator.sh/priority
+// label are parsed as int32, so the whole int32 range is legal. spec.priority comes from a PriorityClass:
+// any negative int32 is legal, user classes go up to 1000000000 and system-node-critical is 2000001000.
+var c11ExtremeI32 = []int32{-1 << 31, -1<<31 + 1, -1, 0, 1, 1<<31 - 2, 1<<31 - 1}
+var c11ExtremePrio = []int32{-1 << 31, -1 << 31, -1<<31 + 1, -1, 1, 1, 1000000000, 2000001000}
+
+const (
+	c11MaxI32 = int64(1<<31 - 1)
+	c11MinI32 = -int64(1 << 31)
+)
+
+func c11IsExtreme(x int64) bool { return x <= c11MinI32+1 || x >= 1000000000 }
+
+// c11OrderKeys: the integer keys of the feature's published comparator (before usage/request).
+func c11OrderKeys(feature string, v *c11View) []int64 {
+	if feature == "BECPUEvict" {
+		return []int64{int64(v.prio)}
+	}
+	return []int64{int64(v.evPrio), int64(v.prio), v.labelPrio}
+}
+
+// c11GenPod: mode 0 ordinary; 1/2/3 = boundary-biased eviction-priority annotation / spec.priority /
+// koordinator.sh/priority label. In modes 2 and 3 the keys that precede the biased key in the published order
+// are equal for all pods of the case (no eviction-priority annotation; mode 3: one shared spec.priority), so
+// that the biased key decides the order. Pods of a biased case are made candidates of every strategy
+// (eviction enabled, no policy annotation, running, sample present) with high probability.
+func c11GenPod(r *kit.Rand, i int, mode int, sharedPrio int32) (*corev1.Pod, *float64) {
 	name := fmt.Sprintf("p%d", i)
 	labels, ann := map[string]string{}, map[string]string{}
 	var prio int32
@@ -507,9 +551,22 @@ func c11GenPod(r *kit.Rand, i int) (*corev1.Pod, *float64) {
 	pickIn := func(lo, hi int32) int32 {
 		return kit.Pick(r, []int32{lo, lo, lo + 1, lo + 500, hi - 1, hi, lo + int32(r.Intn(int(hi-lo)+1))})
 	}
-	switch r.Weighted(40, 18, 12, 15, 15) {
+	branch, forced := r.Weighted(40, 18, 12, 15, 15), false
+	if mode == 2 && r.Pct(65) {
+		branch, forced, prio = 4, true, kit.Pick(r, c11ExtremePrio)
+	}
+	if mode == 3 {
+		forced, prio = true, sharedPrio
+		branch = 4
+		if sharedPrio >= apiext.PriorityBatchValueMin && sharedPrio <= apiext.PriorityBatchValueMax {
+			branch = 0
+		}
+	}
+	switch branch {
 	case 0: // koord-batch
-		prio = pickIn(apiext.PriorityBatchValueMin, apiext.PriorityBatchValueMax)
+		if !forced {
+			prio = pickIn(apiext.PriorityBatchValueMin, apiext.PriorityBatchValueMax)
+		}
 		labels[apiext.LabelPodQoS] = string(apiext.QoSBE)
 		cpuRes, memRes = apiext.BatchCPU, apiext.BatchMemory
 	case 1: // koord-mid
@@ -525,7 +582,9 @@ func c11GenPod(r *kit.Rand, i int) (*corev1.Pod, *float64) {
 		prio = pickIn(apiext.PriorityProdValueMin, apiext.PriorityProdValueMax)
 		labels[apiext.LabelPodQoS] = string(kit.Pick(r, []apiext.QoSClass{apiext.QoSLS, apiext.QoSLSR}))
 	default: // priority outside the koordinator bands (custom priority class or none)
-		prio = kit.Pick(r, []int32{0, 100, 100, 120, 1000, 2999, 4000, 6500})
+		if !forced {
+			prio = kit.Pick(r, []int32{0, 100, 100, 120, 1000, 2999, 4000, 6500})
+		}
 		switch r.Weighted(40, 30, 30) {
 		case 0:
 			// QoS BE without a koordinator priority band defaults to the batch class
@@ -535,18 +594,25 @@ func c11GenPod(r *kit.Rand, i int) (*corev1.Pod, *float64) {
 			labels[apiext.LabelPodQoS] = string(apiext.QoSLS)
 		}
 	}
-	if r.Pct(70) {
+	if r.Pct(70) || (mode > 0 && r.Pct(85)) {
 		labels[apiext.LabelPodEvictEnabled] = "true"
 	} else if r.Pct(30) {
 		labels[apiext.LabelPodEvictEnabled] = "false"
 	}
-	if r.Pct(30) {
+	switch {
+	case mode == 1 && r.Pct(70):
+		ann[apiext.AnnotationPodEvictionPriority] = fmt.Sprint(kit.Pick(r, c11ExtremeI32))
+	case mode >= 2:
+		// equal (absent) for all pods of the case
+	case r.Pct(30):
 		ann[apiext.AnnotationPodEvictionPriority] = fmt.Sprint(kit.Pick(r, []int32{-100, -1, 1, 5, 100}))
 	}
-	if r.Pct(20) {
+	if mode == 3 && r.Pct(70) {
+		labels[apiext.LabelPodPriority] = fmt.Sprint(kit.Pick(r, c11ExtremeI32))
+	} else if r.Pct(20) {
 		labels[apiext.LabelPodPriority] = fmt.Sprint(r.Intn(10000))
 	}
-	if r.Pct(25) {
+	if r.Pct(25) && (mode == 0 || r.Pct(10)) {
 		if r.Pct(12) {
 			ann[apiext.AnnotationPodEvictPolicy] = kit.Pick(r, []string{"", "[", "CPUEvict", `{"CPUEvict":true}`, `"BECPUEvict"`})
 		} else {
@@ -579,6 +645,9 @@ func c11GenPod(r *kit.Rand, i int) (*corev1.Pod, *float64) {
 		containers = append(containers, corev1.Container{Name: fmt.Sprintf("c%d", j), Resources: corev1.ResourceRequirements{Requests: req}})
 	}
 	phase := []corev1.PodPhase{corev1.PodRunning, corev1.PodPending, corev1.PodSucceeded, corev1.PodFailed}[r.Weighted(88, 5, 4, 3)]
+	if mode > 0 && r.Pct(90) {
+		phase = corev1.PodRunning
+	}
 	pod := &corev1.Pod{
 		TypeMeta:   metav1.TypeMeta{Kind: "Pod"},
 		ObjectMeta: metav1.ObjectMeta{Name: name, Namespace: "default", UID: types.UID("uid-" + name), Labels: labels, Annotations: ann},
@@ -586,7 +655,7 @@ func c11GenPod(r *kit.Rand, i int) (*corev1.Pod, *float64) {
 		Status:     corev1.PodStatus{Phase: phase},
 	}
 	var used *float64
-	if r.Pct(85) {
+	if r.Pct(85) || (mode > 0 && r.Pct(80)) {
 		m := kit.Pick(r, []int64{0, 0, 1, 5, 100, 250, 999, 1000, 1001, 4000, int64(r.Range(1, 8000)), int64(r.Range(1, 8000))})
 		// only values whose conversion cores*1000 -> milli is exact, so that the truth is unambiguous
 		for int64(float64(m)/1000*1000) != m {
@@ -602,6 +671,7 @@ func c11GenPod(r *kit.Rand, i int) (*corev1.Pod, *float64) {
 }
 
 type c11Case struct {
+	extreme int // 0 ordinary, 1/2/3 boundary-biased eviction-priority / spec.priority / priority label
 	nodeKey string
 	node    *corev1.Node
 	thr     *slov1alpha1.ResourceThresholdStrategy
@@ -612,12 +682,17 @@ type c11Case struct {
 
 func c11GenCase(r *kit.Rand) *c11Case {
 	cs := &c11Case{table: c11Table{}}
+	var sharedPrio int32
+	if r.Pct(15) {
+		cs.extreme = 1 + r.Intn(3)
+		sharedPrio = kit.Pick(r, []int32{5500, 5500, 100, -1 << 31, 1})
+	}
 	n := r.Range(2, 12)
 	var sumUsedMilli int64
 	var beReqMilli int64
 	reqSum := map[corev1.ResourceName]int64{}
 	for i := 0; i < n; i++ {
-		pod, used := c11GenPod(r, i)
+		pod, used := c11GenPod(r, i, cs.extreme, sharedPrio)
 		cs.pods = append(cs.pods, pod)
 		if used != nil {
 			meta, _ := metriccache.PodCPUUsageMetric.BuildQueryMeta(metriccache.MetricPropertiesFunc.Pod(string(pod.UID)))
@@ -658,6 +733,9 @@ func c11GenCase(r *kit.Rand) *c11Case {
 		corev1.ResourceMemory: resource.MustParse("256Gi"),
 	}
 	factor := func(sum int64) int64 {
+		if cs.extreme > 0 && r.Pct(70) {
+			return sum / 2 // over-committed: the allocatable strategies get a target
+		}
 		return kit.Pick(r, []int64{0, sum / 2, sum * 9 / 10, sum, sum + 1, sum * 12 / 10, sum*2 + 1, 1000, 16000})
 	}
 	if r.Pct(75) {
@@ -681,6 +759,14 @@ func c11GenCase(r *kit.Rand) *c11Case {
 		CPUEvictBESatisfactionLowerPercent:  ptr.To(lowSat),
 		CPUEvictBESatisfactionUpperPercent:  ptr.To(lowSat + int64(r.Range(0, int(99-lowSat)))),
 	}
+	if cs.extreme > 0 {
+		// keep the pods with extreme keys eligible: any spec.priority passes the used-threshold strategies
+		// in half of the cases; the allocatable threshold is capped at 7999 by the validator
+		if r.Pct(50) {
+			cs.thr.EvictEnabledPriorityThreshold = ptr.To(int32(1<<31 - 1))
+		}
+		cs.thr.AllocatableEvictPriorityThreshold = ptr.To(int32(7999))
+	}
 	if r.Pct(60) {
 		cs.thr.CPUEvictLowerPercent = ptr.To(thrPct - int64(r.Range(1, 25)))
 	}
@@ -700,7 +786,11 @@ func c11GenCase(r *kit.Rand) *c11Case {
 	}
 	// node usage in cores: mostly at or above the threshold line
 	var nodeMilli int64
-	switch r.Weighted(15, 20, 35, 30) {
+	uw := []int{15, 20, 35, 30}
+	if cs.extreme > 0 {
+		uw = []int{0, 10, 80, 10}
+	}
+	switch r.Weighted(uw...) {
 	case 0:
 		nodeMilli = capMilli * (thrPct - 1) / 100
 	case 1:
@@ -804,6 +894,10 @@ func TestVerifC11CPUEvict(t *testing.T) {
 		}
 		kind := r.Weighted(30, 8, 12, 20, 30)
 		k, off, pct := r.Range(2, 4), r.Intn(4), kit.Pick(r, []int{10, 30, 50, 80})
+		if cs.extreme > 0 {
+			// many attempts per task, so that many pairs of the sorted candidate list are observed
+			kind, pct = []int{0, 1, 1, 1, 4, 4}[r.Intn(6)], 80
+		}
 		fr := r.Fork()
 		var desc string
 		var script func(call int) bool
@@ -821,6 +915,10 @@ func TestVerifC11CPUEvict(t *testing.T) {
 		}
 		ex := &c11Exec{pending: map[types.UID]bool{}, apiMode: r.Bool(), script: script, evicted: map[types.UID]bool{}}
 		pq := kit.Pick(r, []int{0, 0, 0, 0, 15, 15, 15, 40, 40, 100})
+		if cs.extreme > 0 {
+			pq = 0
+			c.Count("cases_boundary_biased_keys", 1)
+		}
 		views := map[types.UID]*c11View{}
 		for _, p := range cs.pods {
 			if r.Pct(pq) {
@@ -872,7 +970,7 @@ func TestVerifC11CPUEvict(t *testing.T) {
 			c.Op("computed %s", c11TargetString(tv))
 		}
 		ex.events = nil // buildEvictTask does not touch the executor; keep the log clean anyway
-		c.Op("enabled=%s script=%s apiMode=%v", feats, desc, ex.apiMode)
+		c.Op("enabled=%s script=%s apiMode=%v boundaryBiasedKey=%d", feats, desc, ex.apiMode, cs.extreme)
 		m.cpuEvict()
 		out := c11Check(views, tasks, cs.thr, ex)
 		c.Op("calls=%v", out.trace)
@@ -883,6 +981,11 @@ func TestVerifC11CPUEvict(t *testing.T) {
 		c.Count("oracle_attempt_checks", out.attempts)
 		c.Count("order_pairs_checked", out.orderPairs-out.orderUndecided)
 		c.Count("order_pairs_undecided", out.orderUndecided)
+		c.Count("order_pairs_with_extreme_keys", out.orderExtreme)
+		c.Count("order_pairs_with_overflowing_key_difference", out.orderOverflow)
+		if out.orderOverflow > 0 {
+			c.Count("cases_with_overflowing_key_difference", 1)
+		}
 		c.Count("be_pairs_against_eviction_priority_annotation", out.beEvPrioInversions)
 		c.Count("tasks_target_met", out.met)
 		c.Count("tasks_target_unmet", out.unmet)
